@@ -257,6 +257,13 @@ func (c *Config) buildStandardTLSConfig() error {
 		}
 
 		config.ClientCAs = pool
+
+		// the sites of a listener share its session ticket keys, and a
+		// resumed session is not checked against this site's client CAs
+		// again: a ticket obtained from another site would carry that
+		// site's idea of the client over to this one. A site that
+		// authenticates its clients neither issues nor accepts tickets.
+		config.SessionTicketsDisabled = true
 	}
 
 	// default cipher suites
